@@ -59,9 +59,20 @@ MIP_Problem::MIP_Problem(const MIP_Problem& y)
     last_generator(y.last_generator),
     i_variables(y.i_variables) {
   input_cs.reserve(y.input_cs.size());
-  for (Constraint_Sequence::const_iterator i = y.input_cs.begin(),
-         i_end = y.input_cs.end(); i != i_end; ++i) {
-    add_constraint_helper(*(*i));
+  try {
+    for (Constraint_Sequence::const_iterator i = y.input_cs.begin(),
+           i_end = y.input_cs.end(); i != i_end; ++i) {
+      add_constraint_helper(*(*i));
+    }
+  }
+  catch (...) {
+    // The destructor is not going to be called:
+    // release the constraints copied so far.
+    for (Constraint_Sequence::const_iterator i = input_cs.begin(),
+           i_end = input_cs.end(); i != i_end; ++i) {
+      delete *i;
+    }
+    throw;
   }
   PPL_ASSERT(OK());
 }
